@@ -19,7 +19,7 @@ from ..common import Case, HELD, INCONCLUSIVE, VIOLATED
 from ..gen import CidFactory, rng
 from ..history import expand_uidset
 from ..rig import Rig, run_case
-from ..vloop import WallWatchdog, fifo_all_strategy, one_at_a_time_strategy, random_strategy
+from ..vloop import WallWatchdog, fifo_all_strategy, make_slow_db_strategy, one_at_a_time_strategy, random_strategy
 from . import base
 
 PROP = "C10"
@@ -648,11 +648,29 @@ def explore(spec, k, cmdset, counts, scratch, nsched, systematic):
             shutil.rmtree(d, ignore_errors=True)
 
     r1 = rng(spec["seed"], "c10sched", k)
-    run_sched(1, fifo_all_strategy)
+    forced_dense = "restart" in options
+    fifo_loop = run_sched(1, fifo_all_strategy)
+    if fifo_loop is not None:
+        fifo_loop._db_released_total = getattr(fifo_loop, "db_completions", 0)  # database round trips of the FIFO run
     for i in range(nsched):
         run_sched(r1.randrange(1 << 30), r1.choice([random_strategy, random_strategy, one_at_a_time_strategy]))
         if violations:
             break
+    slow = spec.get("slow_db", 0)
+    if slow and not violations and (forced_dense or k % 4 == 0):
+        # delay injection: runs in which one database round trip is slow (held back while anything else can happen); every
+        # round trip of the restart sets, a sample of them elsewhere; two arrival orders each
+        fifo_db = getattr(fifo_loop, "_db_released_total", None) or 120
+        # (the round trips of the set-up come first; the concurrent part is the tail of the run)
+        lo = int(fifo_db * 0.55)
+        cand = list(range(lo, fifo_db + 6))
+        ks = sorted(r1.sample(cand, min(slow * (3 if forced_dense else 1), len(cand))))
+        for kk in ks:
+            for sd in ((11, 12) if forced_dense else (11,)):
+                run_sched(sd, make_slow_db_strategy(kk))
+                counts["slow_db_runs"] += 1
+            if violations:
+                break
     if systematic and not violations:
         # depth-bounded systematic enumeration of single-release choices
         budget = systematic
@@ -718,7 +736,7 @@ def run_shard(spec):
 
 def plan(tier, seed, scale):
     n = int((64 if tier == "quick" else 640) * scale)
-    return base.plan_scripts(PROP, tier, seed, 1.0, quick=n, thorough=n, extra={"nsched": 6 if tier == "quick" else 30, "systematic": 6 if tier == "quick" else 80})
+    return base.plan_scripts(PROP, tier, seed, 1.0, quick=n, thorough=n, extra={"nsched": 6 if tier == "quick" else 30, "systematic": 6 if tier == "quick" else 80, "slow_db": 10 if tier == "quick" else 60})
 
 
 SHARD_TIMEOUT = {"quick": 1200, "thorough": 7000}
